@@ -50,6 +50,12 @@ else:
         rc, out = sh("go run .", tmp, 600)
         shutil.rmtree(tmp, ignore_errors=True)
         return rc, out[-800:]
+if os.environ.get("SEED_DEMO_CMD"):
+    # custom demonstration: a shell command run in the seed directory with REPO=<worktree>; exit status decides
+    def demo_run():
+        rc, out = sh("REPO=%s %s" % (wt, os.environ["SEED_DEMO_CMD"]), sd, 900)
+        return rc, out[-800:]
+    res["demo_cmd"] = os.environ["SEED_DEMO_CMD"]
 rc0, out0 = demo_run()
 res["demo_clean_pass"] = (rc0 == 0); res["demo_clean_tail"] = out0[-300:]
 rc, out = sh("git apply " + os.path.join(sd, "patch.diff"), wt)
